@@ -181,11 +181,17 @@ Definition base_dval (v : goval) : dval :=
   | _ => DNull
   end.
 
-(** [Valuer{descriptor of column c, v}.Value()]: never fails on these values. *)
+(** [Valuer{descriptor of column c, v}.Value()]: never fails on these values.
+    A non-nil pointer handed in for a column whose type is not a pointer stands for the value it points to
+    (internal/fields/sql.go, 3e2535a): it is dereferenced before anything else, so a pointer to the zero
+    value of an implicitnull column is NULL like the zero value itself.  For a pointer column the pointee is
+    serialized as it is; sqlgen refuses implicitnull on pointer fields, so [implicitnull] is false there and
+    the same line covers both. *)
 Definition valuer (implicitnull : bool) (v : goval) : dval :=
   match v with
   | GNil | GNilPtr _ | GNilBytes => DNull      (* a nil slice serializes to NULL *)
-  | GPtr _ v' => base_dval v'                      (* isZero of a non-nil pointer is false *)
+  | GPtr _ (GCustom _ _ ser) => ser
+  | GPtr _ v' => if implicitnull && is_zero v' then DNull else base_dval v'
   | GCustom _ _ ser => ser                         (* driver.Valuer is consulted before the tags *)
   | _ => if implicitnull && is_zero v then DNull else base_dval v
   end.
